@@ -1425,3 +1425,9 @@ def explore_item_custom(params: Any, tier: str, deadline: float) -> dict:
                 res["divergent"].append(repr(case))
             first = False
     return res
+
+
+# wave h documentation (what was added to the enumeration; see DESIGN.md 11.0)
+_WAVE_H = '+ flow modes gc0..gc2 on the trio middleware seam: the request is cancelled while the WSGI thread is parked in send number j (judged for close() exactly once, last)'
+RULE = RULE + " " + _WAVE_H
+BOUNDS_DOC = {k: v + " " + _WAVE_H for k, v in BOUNDS_DOC.items()}
